@@ -116,7 +116,7 @@ def c15(chk, tier):
         sigs = "15,2,3,1"
     else:
         scripts = ["r", "rr", "ar", "dr", "rdr", "ardr", "rrr", "uru", "adrr", "rar", "darr", "urr"]
-        statuses = "0,1,77,255"
+        statuses = "0,1,77,127,128,130,255"
         sigs = "15,2,3"
     args = ["--scripts", ";".join(scripts), "--statuses", statuses, "--signals", sigs]
     out = os.path.join(WORK, "probe_C15.ndjson")
